@@ -53,6 +53,18 @@ def run_shard_inprocess(pid: str, spec: dict) -> Acc:
     acc = Acc()
     hub.reset(acc)
     mod = prop_module(pid)
+    hub.scan_crash_owner = pid if pid in ("C02", "C04", "C08", "C09", "C10", "C14", "C15") else "C04"
+    try:
+        _run_shard(pid, spec, acc, mod)
+    except Exception as e:  # noqa: BLE001  keep what the monitors recorded before the shard died
+        import traceback
+
+        acc.mark_inconclusive(f"shard ({spec.get('kind')}) crashed: {type(e).__name__}: {e} | " + traceback.format_exc()[-600:].replace("\n", " / "))
+    acc.flags["contracts_backend"] = getattr(hub, "contracts_backend", "n/a")
+    return acc
+
+
+def _run_shard(pid, spec, acc, mod):
     if spec.get("kind") == "e2e":
         from . import e2e
 
@@ -63,8 +75,6 @@ def run_shard_inprocess(pid: str, spec: dict) -> Acc:
         combos.run_shard(pid, spec, acc)
     else:
         mod.run_shard(spec, acc)
-    acc.flags["contracts_backend"] = getattr(hub, "contracts_backend", "n/a")
-    return acc
 
 
 def _spawn(pid: str, spec: dict, workdir: str, idx: int, timeout: float):
